@@ -210,11 +210,18 @@ def harness_build(build="dev"):
     return rc, err, os.path.join(HARNESS_DIR, tdir, prof, "uharness")
 
 
-def run_lines(binary, args, lines, timeout=3600):
+def run_lines(binary, args, lines, timeout=3600, wleft=None):
+    """answers of a line-protocol binary. The harness marks a panic that happened with scripted words still unread (`panic wleft=<n>`:
+    not the mock running dry); the mark is removed here and, if a dict is passed as `wleft`, recorded there under the line's index."""
     rc, out, err = sh([binary] + args, stdin="\n".join(lines) + "\n", timeout=timeout)
     res = out.split("\n")
     if res and res[-1] == "":
         res.pop()
+    for i, r in enumerate(res):
+        if r.startswith("panic wleft="):
+            if wleft is not None:
+                wleft[i] = int(r[12:])
+            res[i] = "panic"
     return rc, res, err
 
 
@@ -232,7 +239,7 @@ def with_api_paths(reqs, rng, share=3):
             q = "%s path=%s %s" % (head, rng.choice(PATHS), tail)
         elif q.startswith("std ") and " path=" not in q and rng.chance(1, share):
             head, _, tail = q.partition(" ")
-            q = "%s path=%s %s" % (head, rng.choice(["stdsample", "stdtrait"]), tail)
+            q = "%s path=%s %s" % (head, rng.choice(["stdsample", "stdtrait", "stdfill"]), tail)
         out.append(q)
     return out
 
